@@ -33,15 +33,15 @@ structure StepInv (env : Env) (I : Sim → Prop) : Prop where
     defaultUpdate env w v veh.act = .ok w2 → I w2.sim
 
 /-- the plans are for pairwise distinct vehicles and `prev` is each vehicle's real activity -/
-def Honest (env : Env) (s : Sim) (ps : List (VehicleId × Act × Act)) : Prop :=
-  (ps.map (·.1)).Nodup ∧ ∀ p ∈ ps, (∃ veh, s.vehicle? p.1 = some veh ∧ veh.act = p.2.1) ∧
-    (p.2.2.notServicing = true ∧ p.2.2.wellRouted env)
+def Honest (env : Env) (s : Sim) (ps : List (Instr × VehicleId × Act × Act)) : Prop :=
+  (ps.map (·.2.1)).Nodup ∧ ∀ p ∈ ps, (∃ veh, s.vehicle? p.2.1 = some veh ∧ veh.act = p.2.2.1) ∧
+    (p.2.2.2.notServicing = true ∧ p.2.2.2.wellRouted env)
 
 theorem wf_applied {s : Sim} (a : List (VehicleId × Instr)) (h : s.WF) : ({ s with applied := a } : Sim).WF :=
   ⟨h.veh, h.stn, h.base, h.req, h.plugs⟩
 
 theorem planInstr_spec {s : Sim} {i : Instr} {v : VehicleId} {prev next : Act}
-    (h : planInstr env s i = some (.ok (v, prev, next))) :
+    (h : planInstr env s i = .ok (v, prev, next)) :
     v = i.vehicle ∧ (∃ veh, s.vehicle? v = some veh ∧ veh.act = prev) ∧
       (next.notServicing = true ∧ next.wellRouted env) := by
   have wr0 : ∀ a : Act, a.route? = none → a.wellRouted env := by
@@ -94,106 +94,83 @@ theorem planInstr_spec {s : Sim} {i : Instr} {v : VehicleId} {prev next : Act}
     | some veh =>
       simp only [hv] at h
       cases hl : env.linkEnd l with
-      | error => simp [hl] at h
-      | rejected => simp [hl] at h
-      | ok o =>
-        cases o with
-        | none => simp [hl] at h
-        | some dst =>
-          simp [hl] at h
-          obtain ⟨rfl, rfl, rfl⟩ := h
-          exact ⟨rfl, ⟨veh, hv, rfl⟩, rfl, wr1 _ _ _ rfl⟩
+      | none => simp [hl] at h
+      | some dst =>
+        simp [hl] at h
+        obtain ⟨rfl, rfl, rfl⟩ := h
+        exact ⟨rfl, ⟨veh, hv, rfl⟩, rfl, wr1 _ _ _ rfl⟩
 
-/-- what pass 1 returns: the state with a new `applied` field and honest plans -/
-theorem planAll_spec {s s' : Sim} {is : List Instr} {ps : List (VehicleId × Act × Act)}
-    (hn : (is.map Instr.vehicle).Nodup) (h : planAll env s is = some (s', ps)) :
-    (∃ a, s' = { s with applied := a }) ∧
-    (ps.map (·.1)).Sublist (is.map Instr.vehicle) ∧
-    ∀ p ∈ ps, (∃ veh, s.vehicle? p.1 = some veh ∧ veh.act = p.2.1) ∧
-      (p.2.2.notServicing = true ∧ p.2.2.wellRouted env) := by
-  induction is generalizing s s' ps with
-  | nil =>
-    simp only [planAll] at h
-    cases h
-    exact ⟨⟨s.applied, rfl⟩, List.Sublist.refl _, by intro p hp; cases hp⟩
+/-- what pass 1 returns: honest plans, in instruction order -/
+theorem planAll_spec {s : Sim} {is : List Instr} :
+    ((planAll env s is).map (·.2.1)).Sublist (is.map Instr.vehicle) ∧
+    ∀ p ∈ planAll env s is, p.2.1 = p.1.vehicle ∧ p.1 ∈ is ∧
+      (∃ veh, s.vehicle? p.2.1 = some veh ∧ veh.act = p.2.2.1) ∧
+      (p.2.2.2.notServicing = true ∧ p.2.2.2.wellRouted env) := by
+  induction is with
+  | nil => exact ⟨List.Sublist.refl _, by intro p hp; cases hp⟩
   | cons i is ih =>
-    simp only [List.map_cons, List.nodup_cons] at hn
-    simp only [planAll] at h
-    split at h
-    · cases h
+    simp only [planAll]
+    split
     · next p hp =>
-      split at h
-      · cases h
-      · next s'' ps' hrec =>
-        cases h
-        obtain ⟨⟨a, ha⟩, hsub, hhon⟩ := ih hn.2 hrec
-        obtain ⟨v, prev, next⟩ := p
-        obtain ⟨hv, ⟨veh, hveh, hact⟩, hns⟩ := planInstr_spec hp
-        refine ⟨⟨a, by rw [ha]⟩, ?_, ?_⟩
-        · simp only [List.map_cons]
-          rw [hv]
-          exact List.Sublist.cons_cons _ hsub
-        · intro q hq
-          rcases List.mem_cons.mp hq with rfl | hq'
-          · exact ⟨⟨veh, hveh, hact⟩, hns⟩
-          · obtain ⟨⟨veh', h1, h2⟩, h3⟩ := hhon q hq'
-            exact ⟨⟨veh', by simpa [Sim.vehicle?] using h1, h2⟩, h3⟩
-    · obtain ⟨ha, hsub, hhon⟩ := ih hn.2 h
-      exact ⟨ha, List.Sublist.cons _ hsub, hhon⟩
+      obtain ⟨v, prev, next⟩ := p
+      obtain ⟨hv, hveh, hns⟩ := planInstr_spec hp
+      refine ⟨?_, ?_⟩
+      · simp only [List.map_cons]
+        rw [hv]
+        exact List.Sublist.cons_cons _ ih.1
+      · intro q hq
+        rcases List.mem_cons.mp hq with rfl | hq'
+        · exact ⟨hv, List.mem_cons_self, hveh, hns⟩
+        · obtain ⟨h1, h2, h3, h4⟩ := ih.2 q hq'
+          exact ⟨h1, List.mem_cons_of_mem _ h2, h3, h4⟩
+    · refine ⟨List.Sublist.cons _ ih.1, ?_⟩
+      intro q hq
+      obtain ⟨h1, h2, h3, h4⟩ := ih.2 q hq
+      exact ⟨h1, List.mem_cons_of_mem _ h2, h3, h4⟩
 
-theorem applyPlans_inv {I : Sim → Prop} (hI : StepInv env I) {ps : List (VehicleId × Act × Act)} :
+theorem applyPlans_inv {I : Sim → Prop} (hI : StepInv env I) {ps : List (Instr × VehicleId × Act × Act)} :
     ∀ {w : World}, w.sim.WF → I w.sim → Honest env w.sim ps →
-      I (applyPlans env w ps).sim ∧ (applyPlans env w ps).sim.WF ∧ SameIds w.sim (applyPlans env w ps).sim := by
+      I (applyPlans env w ps).sim ∧ (applyPlans env w ps).sim.WF := by
   induction ps with
-  | nil => intro w hwf hi _; exact ⟨hi, hwf, SameIds.refl _⟩
+  | nil => intro w hwf hi _; exact ⟨hi, hwf⟩
   | cons p ps ih =>
     intro w hwf hi hh
-    obtain ⟨v, prev, next⟩ := p
+    obtain ⟨i, v, prev, next⟩ := p
     simp only [applyPlans]
     obtain ⟨hnd, hall⟩ := hh
     simp only [List.map_cons, List.nodup_cons] at hnd
-    have hrest : ∀ q ∈ ps, (∃ veh, w.sim.vehicle? q.1 = some veh ∧ veh.act = q.2.1) ∧
-        (q.2.2.notServicing = true ∧ q.2.2.wellRouted env) :=
+    have hrest : ∀ q ∈ ps, (∃ veh, w.sim.vehicle? q.2.1 = some veh ∧ veh.act = q.2.2.1) ∧
+        (q.2.2.2.notServicing = true ∧ q.2.2.2.wellRouted env) :=
       fun q hq => hall q (List.mem_cons_of_mem _ hq)
     split
     · next w' htr =>
-      obtain ⟨⟨veh, hveh, hact⟩, hns⟩ := hall (v, prev, next) (List.mem_cons_self)
+      obtain ⟨⟨veh, hveh, hact⟩, hns⟩ := hall (i, v, prev, next) (List.mem_cons_self)
       simp only at hveh hact hns
       subst hact
       have hi' := hI.transition hwf hi hveh (Or.inl hns) htr
       have hid := transition_sameIds hwf htr
       have hfr := transition_frame hwf htr
-      have hh' : Honest env w'.sim ps := by
-        refine ⟨hnd.2, ?_⟩
-        intro q hq
-        obtain ⟨⟨vq, h1, h2⟩, h3⟩ := hrest q hq
-        have hne : q.1 ≠ v := by
-          intro heq
-          apply hnd.1
-          rw [← heq]
-          exact List.mem_map_of_mem (f := fun x : VehicleId × Act × Act => x.1) hq
-        exact ⟨⟨vq, by rw [hfr.others q.1 hne]; exact h1, h2⟩, h3⟩
-      obtain ⟨r1, r2, r3⟩ := ih (hid.wf hwf) hi' hh'
-      exact ⟨r1, r2, hid.trans r3⟩
+      refine ih (w := { w' with sim := { w'.sim with applied := _ } }) (wf_applied _ (hid.wf hwf))
+        (hI.applied _ _ hi') ⟨hnd.2, ?_⟩
+      intro q hq
+      obtain ⟨⟨vq, h1, h2⟩, h3⟩ := hrest q hq
+      have hne : q.2.1 ≠ v := by
+        intro heq
+        apply hnd.1
+        rw [← heq]
+        exact List.mem_map_of_mem (f := fun x : Instr × VehicleId × Act × Act => x.2.1) hq
+      refine ⟨⟨vq, ?_, h2⟩, h3⟩
+      have : w'.sim.vehicle? q.2.1 = some vq := by rw [hfr.others q.2.1 hne]; exact h1
+      simpa [Sim.vehicle?] using this
     · exact ih hwf hi ⟨hnd.2, hrest⟩
 
 /-- **`apply_instructions` keeps `I`** (one instruction per vehicle, as the step pipeline guarantees) -/
-theorem applyInstructions_inv {I : Sim → Prop} (hI : StepInv env I) {w w' : World} {is : List Instr}
-    (hn : (is.map Instr.vehicle).Nodup) (hwf : w.sim.WF) (hi : I w.sim)
-    (h : applyInstructions env w is = some w') : I w'.sim ∧ w'.sim.WF := by
-  unfold applyInstructions at h
-  split at h
-  · cases h
-  · next s1 ps hplan =>
-    cases h
-    obtain ⟨⟨a, rfl⟩, hsub, hhon⟩ := planAll_spec hn hplan
-    have hh : Honest env ({ w with sim := { w.sim with applied := a } } : World).sim ps :=
-      ⟨List.Nodup.sublist hsub hn, fun p hp => by
-        obtain ⟨⟨veh, h1, h2⟩, h3⟩ := hhon p hp
-        exact ⟨⟨veh, by simpa [Sim.vehicle?] using h1, h2⟩, h3⟩⟩
-    have := applyPlans_inv hI (w := { w with sim := { w.sim with applied := a } })
-      (wf_applied a hwf) (hI.applied _ a hi) hh
-    exact ⟨this.1, this.2.1⟩
+theorem applyInstructions_inv {I : Sim → Prop} (hI : StepInv env I) {w : World} {is : List Instr}
+    (hn : (is.map Instr.vehicle).Nodup) (hwf : w.sim.WF) (hi : I w.sim) :
+    I (applyInstructions env w is).sim ∧ (applyInstructions env w is).sim.WF := by
+  unfold applyInstructions
+  obtain ⟨hsub, hhon⟩ := planAll_spec (env := env) (s := w.sim) (is := is)
+  exact applyPlans_inv hI hwf hi ⟨List.Nodup.sublist hsub hn, fun p hp => ⟨(hhon p hp).2.2.1, (hhon p hp).2.2.2⟩⟩
 
 end Hive
 
